@@ -8,10 +8,10 @@ PROPS_TARGETS = ["Props_C16"]
 TRUSTED_BASE = ["numpy semantics of each test are modelled (per-test properties)"]
 ASSUMPTIONS = ["both parameter sets valid (non-negative thresholds / durations, suspect span inside fail span)",
                "on the implementation the relation is evaluated for gross/valid range, spike, rate of change, speed, location "
-               "(box), density inversion and flat line; for attenuated signal and range_max only the Coq theorem applies "
+               "(box), density inversion, flat line and climatology (per member: spans shrunk, or a fail span added); for attenuated signal and range_max only the Coq theorem applies "
                "(moving those thresholds by small steps would land within rounding distance of a spread / hop distance)"]
 TESTS = ["gross_range_test", "valid_range_test", "spike_test", "rate_of_change_test", "speed_test", "location_test",
-         "density_inversion_test", "flat_line_test", "attenuated_signal_test"]
+         "density_inversion_test", "flat_line_test", "attenuated_signal_test", "climatology_test"]
 
 
 def run(ctx):
